@@ -262,6 +262,109 @@ def kw_mutants(ctx, cls, args, kw, rng):
     return out
 
 
+V2_HEAD = ('<?xml version="1.0" encoding="UTF-8" standalone="no"?>\r\n<?OFX OFXHEADER="200" VERSION="220" SECURITY="NONE" OLDFILEUID="NONE" NEWFILEUID="NONE"?>\r\n')
+V1_HEAD = "OFXHEADER:100\r\nDATA:OFXSGML\r\nVERSION:160\r\nSECURITY:NONE\r\nENCODING:UNICODE\r\nCHARSET:NONE\r\nCOMPRESSION:NONE\r\nOLDFILEUID:NONE\r\nNEWFILEUID:NONE\r\n\r\n"
+
+
+def front_doors(ctx, rep, tier):
+    """the same constraints through the doors an APPLICATION uses: a whole response FILE (signon + account-information or profile message set)
+    read by OFXTree.parse + convert and by ofxget's extract_acctinfos / extract_signoninfos.  A file in which one declared limit is violated must
+    be refused by every door; the same file with the value exactly at its limit must be accepted with the value held.  Afterwards (some of the
+    conversions above failed half-way) a violated limit is still refused by a direct conversion: nothing the doors do may switch the checks off.
+    Own PRNG stream."""
+    import io, os, random
+    from ofxtools.Parser import OFXTree
+    from ofxtools.scripts import ofxget
+    M = ctx.M
+    T = ctx.Types
+    frng = random.Random("c04-doors-%s" % os.environ.get("VERIF_SEED", "20260101"))
+    ok_status = lambda: M.STATUS(code=0, severity="INFO")
+
+    def sonrs():
+        return M.SIGNONMSGSRSV1(sonrs=M.SONRS(status=ok_status(), dtserver="20240102030405.678", language="ENG"))
+
+    def bounded_leaves(e, out):
+        cls = ctx.byname.get(e.tag)
+        if cls is None:
+            return
+        for k in e:
+            t = cls.spec.get(k.tag.lower())
+            if len(k) == 0 and k.text and t is not None and type(t) in (T.String, T.Integer, T.OneOf, T.Bool) and not (type(t) is T.String and t.length is None) \
+               and not (type(t) is T.Integer and t.length is None):
+                out.append((k, t))
+            elif len(k):
+                bounded_leaves(k, out)
+
+    n_files = 0
+    n = 24 if tier == "thorough" else 8
+    for i in range(n):
+        kind = "acctinfo" if i % 2 == 0 else "profile"
+        body = H.gen_instance(ctx, ctx.byname["ACCTINFORS" if kind == "acctinfo" else "PROFRS"], frng, depth=3, full=0.8)
+        if body is None:
+            continue
+        try:
+            if kind == "acctinfo":
+                ofx = M.OFX(signonmsgsrsv1=sonrs(), signupmsgsrsv1=M.SIGNUPMSGSRSV1(M.ACCTINFOTRNRS(trnuid="1", status=ok_status(), acctinfors=body)))
+                extract = lambda b: list(ofxget.extract_acctinfos(io.BytesIO(b)))
+                door2 = "ofxget.extract_acctinfos"
+            else:
+                ofx = M.OFX(signonmsgsrsv1=sonrs(), profmsgsrsv1=M.PROFMSGSRSV1(M.PROFTRNRS(trnuid="1", status=ok_status(), profrs=body)))
+                extract = lambda b: list(ofxget.extract_signoninfos(io.BytesIO(b)))
+                door2 = "ofxget.extract_signoninfos"
+            tree = ofx.to_etree()
+        except Exception as e:
+            continue
+
+        def parse_convert(b):
+            t = OFXTree(); t.parse(io.BytesIO(b)); return t.convert()
+        doors = [("OFXTree.parse+convert", parse_convert), (door2, extract)]
+        clean = ET.tostring(tree, encoding="unicode", short_empty_elements=False)
+        for head in (V2_HEAD, V1_HEAD):
+            for name, door in doors:
+                out = H.outcome(lambda: door((head + clean).encode("utf-8")))
+                n_files += 1
+                if out[0] != "ok":
+                    rep.failures.append(C.Failure("door:%s:valid-file-rejected" % name, "%s refuses a valid %s response file: %s" % (name, kind, out[1]),
+                                                  {"route": "door", "door": name, "file": (head + clean)[:6000]}))
+        leaves = []
+        bounded_leaves(tree, leaves)
+        frng.shuffle(leaves)
+        strs = [x for x in leaves if type(x[1]) is T.String]
+        rest = [x for x in leaves if type(x[1]) is not T.String]
+        k = 3 if tier == "thorough" else 2
+        for leaf, t in strs[:k] + rest[:k - 1]:
+            r = over_limit_text(ctx, t, frng)
+            if not r:
+                continue
+            mk, viol, bound = r
+            old = leaf.text
+            for text, expect in ((viol, "reject"), (bound, "accept")):
+                leaf.text = text.replace("&amp;", "&")      # the mutants are tree-level (wire) texts; ET.tostring escapes the ampersand again
+                doc = ET.tostring(tree, encoding="unicode", short_empty_elements=False)
+                head = frng.choice([V2_HEAD, V1_HEAD])
+                data = (head + doc).encode("utf-8")
+                for name, door in doors:
+                    out = H.outcome(lambda: door(data))
+                    n_files += 1
+                    case = {"route": "door", "door": name, "leaf": leaf.tag, "mutation": mk if expect == "reject" else "boundary-" + mk, "file": (head + doc)[:6000]}
+                    rep.count((name, data), nontrivial=True, kind="door:%s:%s:%s" % (name.split(".")[-1], case["mutation"], out[0]))
+                    if expect == "reject" and out[0] == "ok":
+                        rep.failures.append(C.Failure("door:%s:%s:accepted" % (name, mk), "%s accepts a %s response file whose <%s> violates its declared limit (%s): %r"
+                                                      % (name, kind, leaf.tag, mk, text[:60]), case))
+                    elif expect == "accept" and out[0] != "ok":
+                        rep.failures.append(C.Failure("door:%s:boundary-%s:rejected" % (name, mk), "%s refuses a %s response file whose <%s> is exactly at its limit: %s" % (name, kind, leaf.tag, out[1]), case))
+            leaf.text = old
+    # the checks are still on after all that (a door that lowers a class-level switch and fails half-way must not leave it down)
+    for what, fn in (("String(3).convert('abcd')", lambda: T.String(3).convert("abcd")), ("String(3).unconvert('abcd')", lambda: T.String(3).unconvert("abcd")),
+                     ("STATUS(code=0, severity='INFO', message='x'*256)", lambda: M.STATUS(code=0, severity="INFO", message="x" * 256))):
+        out = H.outcome(fn)
+        if out[0] == "ok":
+            rep.failures.append(C.Failure("door:limits-switched-off-afterwards", "after the response files above were read through the application's doors, %s is accepted" % what,
+                                          {"route": "door", "after": "front doors", "call": what}))
+    rep.extra["front_door_files"] = n_files
+
+
+
 def run(rep, tier, rng):
     ctx = H.Ctx()
     if ctx.d["problems"]:
@@ -382,6 +485,7 @@ def run(rep, tier, rng):
                 "over-long string, over-limit integer, foreign token (+ the value exactly at the limit, which must be accepted), two of a group, none of a required group, "
                 "duplicate child, swapped children; every instance returned anywhere is run through the independent validator (python) and the model's validator (Coq). "
                 "non-trivial = all cases; distinct by case text" % per_class)
+    front_doors(ctx, rep, tier)
     bad = C.coq_bad_indices(PROP, "mutants", IMPORTS, "ccase_ok S", "ccase", items, shard=200, prelude="Local Open Scope string_scope.")
     for i in bad[:30]:
         rep.disagreements.append(dict(meta[i], case=items[i][:1500]))
@@ -407,6 +511,21 @@ def replay(obj):
         out, _ = H.run_from_etree(ctx, ET.fromstring(r["xml"]))
         print("replay: from_etree ->", out[0], out[1] if out[0] != "ok" else validate(ctx, out[1]))
         bad = out[0] == "ok" and (not r["mutation"].startswith("boundary") ) or (out[0] != "ok" and r["mutation"].startswith("boundary"))
+    elif r.get("route") == "door" and "file" in r:
+        import io
+        from ofxtools.Parser import OFXTree
+        from ofxtools.scripts import ofxget
+        data = r["file"].encode("utf-8")
+        def parse_convert(b):
+            t = OFXTree(); t.parse(io.BytesIO(b)); return t.convert()
+        door = {"OFXTree.parse+convert": parse_convert, "ofxget.extract_acctinfos": lambda b: list(ofxget.extract_acctinfos(io.BytesIO(b))),
+                "ofxget.extract_signoninfos": lambda b: list(ofxget.extract_signoninfos(io.BytesIO(b)))}[r["door"]]
+        out = H.outcome(lambda: door(data))
+        print("replay: %s on the recorded file (<%s> %s) -> %s" % (r["door"], r.get("leaf"), r.get("mutation"), out[0] if out[0] == "ok" else out))
+        m = r.get("mutation") or "boundary"
+        bad = (out[0] == "ok") != m.startswith("boundary")
+    elif r.get("route") == "door":
+        print("replay: rerun bin/check C04 (the limit probes after the front-door stream):", r.get("call")); return 2
     else:
         print("replay of keyword-route cases: rerun bin/check C04 (arguments are generated objects); mutation:", r.get("mutation"), r.get("kwargs"))
         return 2
